@@ -15,7 +15,7 @@ import (
 // C08 — validation results are written back: 304 freshens, 200 replaces.
 func init() { register(&Check{ID: "C08", Run: runC08, ShardDepth: 3}) }
 
-var c08Answers = []string{"304", "304+X-New", "304+max-age=20", "304+CL+hop", "304+CL+hop-lowercase", "304+CL+hop-two-lines", "304-no-date", "304+two-cc-lines", "200-same-vary", "200-other-vary", "200-no-store", "500"}
+var c08Answers = []string{"304", "304+X-New", "304+max-age=20", "304+CL+hop", "304+CL+hop-lowercase", "304+CL+hop-two-lines", "304-no-date", "304+two-cc-lines", "200-same-vary", "200-other-vary", "200-no-store", "500", "410-max-age=30", "404-max-age=30"}
 
 func runC08(x *mc.X) {
 	kind := mc.Pick(x, "stored.kind", []string{"max-age=10", "heuristic", "max-age=5,swr=100"})
@@ -140,6 +140,14 @@ func runC08(x *mc.X) {
 				resp := o.Respond(c, RS{Status: 200, H: H("Vary", "X-B", "Cache-Control", "max-age=30", "ETag", `"v2"`)})
 				newTok = resp.Header.Get("X-Tok")
 				return resp, nil
+			case ans == "410-max-age=30" || ans == "404-max-age=30": // a full, cacheable reply that happens to be an error status: it replaces the stored response all the same
+				st := 410
+				if ans[0:3] == "404" {
+					st = 404
+				}
+				resp := o.Respond(c, RS{Status: st, H: H("Vary", "X-A", "Cache-Control", "max-age=30", "ETag", `"v2"`)})
+				newTok = resp.Header.Get("X-Tok")
+				return resp, nil
 			case ans == "200-no-store":
 				return o.Respond(c, RS{Status: 200, H: H("Vary", "X-A", "Cache-Control", "no-store")}), nil
 			case ans == "500":
@@ -170,7 +178,7 @@ func runC08(x *mc.X) {
 		case newTok != "" && ans != "200-no-store":
 			replaced[cur] = true
 			t2 := w.Origin.Toks[newTok]
-			ghost = &oracle.Stored{Status: 200, Header: t2.Header, ReqTime: t2.ReqTime, RespTime: t2.RespTime}
+			ghost = &oracle.Stored{Status: t2.Status, Header: t2.Header, ReqTime: t2.ReqTime, RespTime: t2.RespTime}
 			cur = newTok
 		default:
 			// 500 / no-store / unconditional refetch: nothing is demanded of the validated variant
